@@ -1634,46 +1634,46 @@ Proof.
     + destruct r as [|m|].
       * rewrite (Hnw ROk eq_refl) by discriminate. simpl. auto.
       * destruct (rejected_not_accepted s' i _ I' Hr ltac:(discriminate)) as (_ & _ & A).
-        rewrite (A m eq_refl), Nat.eqb_refl, (Hnh ltac:(discriminate)), (Hnw (RErr m) eq_refl) by discriminate.
+        rewrite (A m eq_refl), Nat.eqb_refl, (Hnh ltac:(discriminate)).
         simpl. auto.
       * rewrite (Hnh ltac:(discriminate)). simpl. auto.
     + intros x. rewrite Si.
       destruct r as [|m|]; [rewrite (Hnw ROk eq_refl) by discriminate; simpl; auto| |].
-      * destruct (Nat.eqb m i && negb (mem i (b_handled (O2 s))) && negb (mem i (b_wrong (O2 s)))); simpl; auto.
+      * destruct (Nat.eqb m i && negb (mem i (b_handled (O2 s)))); simpl; auto.
       * destruct (mem i (b_handled (O2 s))); simpl; auto.
     + intros x.
       destruct r as [|m|]; [rewrite (Hnw ROk eq_refl) by discriminate; simpl| |].
       * intros X. apply mem_cons in X as [->|X]; auto. congruence.
-      * destruct (Nat.eqb m i && negb (mem i (b_handled (O2 s))) && negb (mem i (b_wrong (O2 s)))); simpl; auto.
+      * destruct (Nat.eqb m i && negb (mem i (b_handled (O2 s)))); simpl; auto.
         intros X. apply mem_cons in X as [->|X]; auto. congruence.
       * destruct (mem i (b_handled (O2 s))); simpl; auto.
         intros X. apply mem_cons in X as [->|X]; auto. congruence.
     + intros x.
       destruct r as [|m|]; [rewrite (Hnw ROk eq_refl) by discriminate; simpl| |].
       * intros X. apply mem_cons in X as [->|X]; auto.
-      * destruct (Nat.eqb m i && negb (mem i (b_handled (O2 s))) && negb (mem i (b_wrong (O2 s)))); simpl; auto.
+      * destruct (Nat.eqb m i && negb (mem i (b_handled (O2 s)))); simpl; auto.
       * destruct (mem i (b_handled (O2 s))); simpl; auto.
     + intros x.
       destruct r as [|m|]; [rewrite (Hnw ROk eq_refl) by discriminate; simpl; auto| |].
-      * destruct (Nat.eqb m i && negb (mem i (b_handled (O2 s))) && negb (mem i (b_wrong (O2 s)))); simpl; auto.
+      * destruct (Nat.eqb m i && negb (mem i (b_handled (O2 s)))); simpl; auto.
         intros X. apply mem_cons in X as [->|X]; auto. exists (RErr m). split; auto. discriminate.
       * destruct (mem i (b_handled (O2 s))); simpl; auto.
         intros X. apply mem_cons in X as [->|X]; auto. exists RInvalid. split; auto. discriminate.
     + intros x. rewrite H.
       destruct r as [|m|]; [rewrite (Hnw ROk eq_refl) by discriminate; simpl; auto| |].
-      * destruct (Nat.eqb m i && negb (mem i (b_handled (O2 s))) && negb (mem i (b_wrong (O2 s)))); simpl; auto.
+      * destruct (Nat.eqb m i && negb (mem i (b_handled (O2 s)))); simpl; auto.
       * destruct (mem i (b_handled (O2 s))); simpl; auto.
     + rewrite E.
       destruct r as [|m|]; [rewrite (Hnw ROk eq_refl) by discriminate; simpl; auto| |].
-      * destruct (Nat.eqb m i && negb (mem i (b_handled (O2 s))) && negb (mem i (b_wrong (O2 s)))); simpl; auto.
+      * destruct (Nat.eqb m i && negb (mem i (b_handled (O2 s)))); simpl; auto.
       * destruct (mem i (b_handled (O2 s))); simpl; auto.
     + intros x.
       destruct r as [|m|]; [rewrite (Hnw ROk eq_refl) by discriminate; simpl; auto| |].
-      * destruct (Nat.eqb m i && negb (mem i (b_handled (O2 s))) && negb (mem i (b_wrong (O2 s)))); simpl; auto.
+      * destruct (Nat.eqb m i && negb (mem i (b_handled (O2 s)))); simpl; auto.
       * destruct (mem i (b_handled (O2 s))); simpl; auto.
     + intros j x.
       destruct r as [|m|]; [rewrite (Hnw ROk eq_refl) by discriminate; simpl; auto| |].
-      * destruct (Nat.eqb m i && negb (mem i (b_handled (O2 s))) && negb (mem i (b_wrong (O2 s)))); simpl; auto.
+      * destruct (Nat.eqb m i && negb (mem i (b_handled (O2 s)))); simpl; auto.
       * destruct (mem i (b_handled (O2 s))); simpl; auto.
     + auto.
   - (* drain end *)
